@@ -30,7 +30,7 @@ except ImportError:  # pragma: no cover
         return lambda x: x
 
 
-from .datastructures import Cookie, MutableHeaders
+from .datastructures import Cookie, Headers, MutableHeaders
 from .exceptions import MalformedRangeHeader, RangeNotSatisfiable
 from .typing import Literal, ServerSentEvent
 
@@ -105,6 +105,12 @@ class BaseResponse:
     def list_headers(self, *, as_bytes: Literal[False]) -> List[Tuple[str, str]]:
         ...
 
+    def header_lines(self) -> Iterable[Tuple[str, str]]:
+        """
+        The header lines that `self.headers` stands for.
+        """
+        return self.headers.items()
+
     def list_headers(self, *, as_bytes):
         """
         Merge `self.headers` and `self.cookies` then returned as a list.
@@ -113,15 +119,34 @@ class BaseResponse:
             return [
                 *(
                     (key.encode("latin-1"), value.encode("latin-1"))
-                    for key, value in self.headers.items()
+                    for key, value in self.header_lines()
                 ),
                 *((b"set-cookie", bytes(cookie)) for cookie in self.cookies),
             ]
         else:
             return [
-                *self.headers.items(),
+                *self.header_lines(),
                 *(("set-cookie", str(cookie)) for cookie in self.cookies),
             ]
+
+
+def unfold_header_lines(
+    headers: Mapping[str, str], raw_headers: Sequence[Tuple[str, str]]
+) -> List[Tuple[str, str]]:
+    """
+    `Headers(raw_headers)` folds the lines of a repeated header name into one
+    comma-joined value, which changes the meaning of e.g. several Set-Cookie
+    lines. Give back the original lines of every header in `headers` that still
+    has the folded value; a header that was changed since is one line.
+    """
+    folded = Headers(raw_headers)
+    lines: List[Tuple[str, str]] = []
+    for key, value in headers.items():
+        if folded.get(key) == value:
+            lines.extend((key, v) for k, v in raw_headers if k.lower() == key)
+        else:
+            lines.append((key, value))
+    return lines
 
 
 @trait
